@@ -272,8 +272,8 @@ def run(pid, tier, seed, rundir, model_run):
     if gerr:
         res["broken"].append(f"{pid}/corr/gate: cannot build the schedule gate: {gerr}")
     else:
-        nconf = 40 if tier == "thorough" else 5
-        nsched = 30 if tier == "thorough" else 10
+        nconf = 40 if tier == "thorough" else 6
+        nsched = 32 if tier == "thorough" else 12
         for gi in range(nconf):
             tree = {}
             for _ in range(rng.below(3)):
@@ -284,13 +284,44 @@ def run(pid, tier, seed, rundir, model_run):
             for _ in range(nclients):
                 op = gen_ops(rng, tree, pid, path=hot if rng.coin(3, 4) else None)[0]
                 clients.append([op])
+            if gi % 3 == 1:
+                tree.setdefault(hot, rng.pick(CONTENTS))
+                # a reader against writers of the same live path: Get's open … stat/read window vs a commit or delete
+                clients = [[gen_ops(rng, tree, pid, path=hot)[0]] for _ in range(nclients)]
+                b = H.frame(H.req_get(hot))
+                clients[0] = [{"kind": "get", "path": hot, "pieces": [b], "bytes": b, "desc": f"get {hot}"}]
             # make them collide: most requests of a configuration address the same path
             allowed = set(tree.values()) | {op["content"] for cl in clients for op in cl if op["kind"] == "put" and op["variant"] == "ok"}
-            pols = G.preemption_bounded(nclients, 9, 2)
-            chosen = [pols[rng.below(len(pols))] for _ in range(nsched // 2)] + [None] * (nsched - nsched // 2)
-            for si, pol in enumerate(chosen):
+            # schedules for this configuration, decided as we go: first every sequential order (which also tells how
+            # many gated calls each process makes), then EVERY schedule with exactly one preemption (process a runs k
+            # calls, the others run to completion in each order, a finishes), then 2-preemption and random ones
+            seq_orders = list(itertools.permutations(range(nclients)))
+            chosen = [[(c, 99) for c in order] for order in seq_orders]
+            lens = {}
+            planned_more = False
+            si = -1
+            while True:
+                si += 1
+                if si >= len(chosen):
+                    if planned_more:
+                        break
+                    planned_more = True
+                    one = []
+                    for a in range(nclients):
+                        others = [c for c in range(nclients) if c != a]
+                        for k in range(1, max(2, lens.get(a, 2))):
+                            for order in itertools.permutations(others):
+                                one.append([(a, k)] + [(c, 99) for c in order] + [(a, 99)])
+                    if tier != "thorough" and len(one) > nsched * 2:
+                        one = [one[i] for i in sorted({rng.below(len(one)) for _ in range(nsched * 2)})]
+                    pols2 = G.preemption_bounded(nclients, 9, 2)
+                    chosen += one + [pols2[rng.below(len(pols2))] for _ in range(nsched // 4)] + [None] * (nsched // 4)
+                    count("gated/one-preemption-schedules", len(one))
+                    if si >= len(chosen):
+                        break
+                pol = chosen[si]
                 kill_at = None
-                if pid == "C10" and rng.coin(1, 4):
+                if pid == "C10" and si >= len(seq_orders) and rng.coin(1, 4):
                     kill_at = (rng.below(14), rng.below(nclients))
                 with Sandbox(pid) as sb:
                     root = sb.path("hub")
@@ -311,6 +342,9 @@ def run(pid, tier, seed, rundir, model_run):
                     G.drive(run_, policy=pol, rng=rng if pol is None else None, kill_at=kill_at, on_step=on_step)
                     run_.finish()
                     steps_checked += run_.step
+                    if si < len(seq_orders):
+                        for pr in run_.procs:
+                            lens[pr.idx] = max(lens.get(pr.idx, 0), len(pr.trace))
                     rep["schedule"] = [f"{i}:{c}" for (_, i, c) in run_.events]
                     if run_.stuck:
                         res["violations"].append(("gated-run-stuck", run_.stuck, rep))
